@@ -81,7 +81,7 @@ class Explorer:
         self.defs = {}
         self._scope = 0
         self._deferred = []
-        self.inst_points = []  # time indices at which universally quantified facts (reductions) are instantiated
+        self.batch_events = []  # cross-batch information flows observed on this path (C11)
 
     def fresh_name(self, base):
         return f"{base}!{next(self.fresh_counter)}"
